@@ -12,6 +12,7 @@ CTF = "litedram/core/controller.py"
 ADF = "litedram/frontend/adapter.py"
 WBF = "litedram/frontend/wishbone.py"
 AVF = "litedram/frontend/avalon.py"
+ECF = "litedram/frontend/ecc.py"
 
 
 def M(id, prop, ob, file, old, new, expect="refuted", **kw):
@@ -164,4 +165,13 @@ MUTANTS = [
     M("c07.3-av-sign", "C07", "C07.3", AVF, "addr_shift = -log2_int(avalon_data_width//port_data_width)", "addr_shift = log2_int(avalon_data_width//port_data_width)"),
     M("c07.4-lane-order", "C07", "C07.4", ADF, "\n                        | (port_from.cmd.valid & ((sel >> port_from.cmd.addr[:log2_int(ratio)]) != 0))),", "),"),
     B("c07.4-twin", "C07", ADF, "((sel >> port_from.cmd.addr[:log2_int(ratio)]) != 0)", "((sel & ~((1 << port_from.cmd.addr[:log2_int(ratio)]) - 1)) != 0)"),
+    # ---- C15 ----
+    M("c15.1-decoder-lane", "C15", "C15.1", ECF, "decoder.i.eq(sink.data[i*ecc_width_to:(i+1)*ecc_width_to]),", "decoder.i.eq(sink.data[(i+1)*ecc_width_to:(i+2)*ecc_width_to]),"),
+    M("c15.1-enc-in", "C15", "C15.1", ECF, "encoder.i.eq(sink.data[i*ecc_width_from:(i+1)*ecc_width_from]),", "encoder.i.eq(sink.data[i*ecc_width_from:(i+1)*ecc_width_from - 1]),"),
+    M("c15.1-flags", "C15", "C15.1", ECF, "self.ded[i].eq(decoder.ded)", "self.ded[i].eq(decoder.sec)"),
+    M("c15.2-ded-on-sec", "C15", "C15.2", ECF, "If(ecc_rdata.ded != 0,\n                        ded_detected.eq(1),", "If(ecc_rdata.sec != 0,\n                        ded_detected.eq(1),"),
+    M("c15.2-noclear", "C15", "C15.2", ECF, "                sec_errors.eq(0),\n                ded_errors.eq(0),", "                sec_errors.eq(0),"),
+    M("c15.3-compare-prec", "C15", "C15.3", ECF, "!= (2**(ecc_width_from//8)-1)),", "!= (2**ecc_width_from//8-1)),"),
+    M("c15.3-assign-narrow", "C15", "C15.3", ECF, ".eq(2**ecc_width_to//8-1)", ".eq(2**(ecc_width_to//8)-1)"),
+    B("c15-twin-assign-wide", "C15", ECF, ".eq(2**ecc_width_to//8-1)", ".eq(2**(ecc_width_to//8 + 1)-1)"),
 ]
